@@ -168,7 +168,7 @@ Section Mirror.
     match c with
     | CConst x => (x, st)
     | CAccent comb =>
-        let '(ss, st1) := asingles_g sl st args in
+        let '(ss, st1) := atexts_g sl st args in
         if Nat.ltb off (length al) then (accent_text lt comb (Some (nth_s ss off)), st1)
         else (accent_text lt comb None, st)
     | CMathStyle style =>
